@@ -753,6 +753,11 @@ func onePush(c *vlib.Collector, pid int, srv *xdsfake.FakeDiscoveryServer, p0 *m
 		}
 	})
 	if pan {
+		if strings.Contains(msg, "index out of range") && strings.Contains(msg, "loadbalancer/loadbalancer.go") &&
+			strings.Contains(msg, "cluster_traffic_policy.go") && sets.New(w.features...).Contains("dr-failover-priority") {
+			// DNS cluster whose endpoints span several localities + failoverPriority (known finding)
+			c.FindingOf[pid] = "C14-dns-cluster-failover-priority-panic"
+		}
 		violate("panic", msg)
 		return
 	}
@@ -990,11 +995,17 @@ func findingFor(diag []string, w *world) string {
 			if fid == "" {
 				fid = "C14-endpoint-weight-sum-overflow"
 			}
-		case strings.HasPrefix(d, "duplicate-filter-chain-match in listener ") && strings.Contains(d, " [plain+plain]: prefix_ranges:") &&
-			strings.Contains(d, "server_names:") && feats.Contains("vs-tls-destination-subnets"):
-			// a tls match's destinationSubnets leak into the following matches of the same service port
+		case !dupInput && strings.HasPrefix(d, "duplicate-filter-chain-match in listener 0.0.0.0_") && strings.Contains(d, " [plain+plain]: server_names:\"outbound_.") &&
+			feats.Contains("gw-server:TLS/AUTO_PASSTHROUGH"):
+			// two AUTO_PASSTHROUGH servers on one port whose hosts overlap (e.g. "*" and "b.example.com")
 			if fid == "" || fid == "C14-endpoint-weight-sum-overflow" {
-				fid = "C14-tls-destination-subnets-leak"
+				fid = "C14-autopassthrough-overlapping-server-hosts"
+			}
+		case strings.HasPrefix(d, "duplicate-filter-chain-match in listener 0.0.0.0_") && strings.Contains(d, " [tls-terminating+tls-terminating]: server_names:") &&
+			(feats.Contains("gw-mixed-case-host") || feats.Contains("gw-ns-qualified-host")):
+			// terminating servers whose hosts differ only in case or in a namespace prefix
+			if fid == "" || fid == "C14-endpoint-weight-sum-overflow" {
+				fid = "C14-gateway-tls-host-spelling-variants-collide"
 			}
 		case strings.HasPrefix(d, "duplicate-filter-chain-match in listener 0.0.0.0_") && strings.Contains(d, " [plain+tls-terminating]: server_names:") && feats.Contains("gw"):
 			// an HTTPS (terminating) server and a passthrough TLS route claim the same SNI on one listener
